@@ -533,6 +533,28 @@ class SNum:
             raise ZeroDivisionError("integer division or modulo by zero")
         return SNum(z3.ToReal(z3.ToInt(s.e / d)), True)
 
+    def __mod__(s, o):
+        # Python's %: s - o*floor(s/o) (the sign follows the divisor), on integers and on reals
+        d = lift(o)
+        if ctx().branch(d == 0):
+            raise ZeroDivisionError("integer division or modulo by zero")
+        return SNum(s.e - d * z3.ToReal(z3.ToInt(s.e / d)), s._ii(o))
+
+    def __rmod__(s, o):
+        if ctx().branch(s.e == 0):
+            raise ZeroDivisionError("integer division or modulo by zero")
+        n = lift(o)
+        return SNum(n - s.e * z3.ToReal(z3.ToInt(n / s.e)), s._ii(o))
+
+    def __and__(s, o):
+        # integer & (2**k - 1) == integer mod 2**k (also for negative integers); other masks are not modelled
+        if s.is_int and isinstance(o, int) and not isinstance(o, bool) and o >= 0 and (o & (o + 1)) == 0:
+            return s % (o + 1)
+        ctx().set_poison("bitwise & on a symbolic integer with a mask that is not 2**k-1 (unmodelled)")
+        raise TypeError("unmodelled bitwise operation on a symbolic integer")
+
+    __rand__ = __and__
+
     def __lt__(s, o):
         return SBool(s.e < lift(o))
 
